@@ -1,4 +1,326 @@
 import Model.Base.Proto
+import Model.Stats.UDist
+import Model.Stats.UStat
+import Model.Spec.UExact
+import Std.Data.HashMap
 
-/-- stub: replaced when the property's driver is built -/
-def main : IO Unit := pure ()
+/-!
+Driver for C11. Reads the harness stream; for every `case` line it waits for the `info` line of
+the same id (raw float bits of the implementation's results) and prints
+
+* `obs`  — the MODEL's observables (Model/Stats/UStat, UDist), p-values as 12-decimal strings;
+* `spec` — what the SPECIFICATION demands (Model/Spec/UExact: pair counting, enumeration of
+           assignments / counting per tie group, textbook normal approximation).
+
+Tolerance policy for p-values (documented in notes/C11.md): model and spec values are exact
+rationals. If the implementation's float (taken from the `info` line) is within `tol` of the exact
+value the driver prints the implementation's own 12-decimal rendering (computed here from the bits
+by exact half-even rounding — so the Go formatting is re-derived, not copied); otherwise it prints
+the 12-decimal rounding of the exact value and the lines differ. tol = 1e-12 (absolute).
+On the normal-approximation branch Φ is evaluated here in 60-digit fixed point from the model's
+exact (U, μ, σ², continuity correction); where Go evaluates the lower tail directly the
+tolerance is additionally relative (1e-9·p).
+-/
+
+namespace Driver.C11
+open Proto Stats
+
+/-! ### floats and decimal rendering -/
+
+def hexVal (c : Char) : Option Nat :=
+  if '0' ≤ c ∧ c ≤ '9' then some (c.toNat - '0'.toNat)
+  else if 'a' ≤ c ∧ c ≤ 'f' then some (c.toNat - 'a'.toNat + 10)
+  else none
+
+def hexNat (s : String) : Option Nat :=
+  s.toList.foldlM (fun acc c => (hexVal c).map (acc * 16 + ·)) 0
+
+inductive FV | nan | inf (neg : Bool) | fin (q : Rat)
+
+def bitsToFV (s : String) : Option FV := do
+  let b ← hexNat s
+  if s.length ≠ 16 then none
+  let neg := b / 2 ^ 63 = 1
+  let e := (b / 2 ^ 52) % 2048
+  let m := b % 2 ^ 52
+  if e = 2047 then
+    if m = 0 then some (.inf neg) else some .nan
+  else
+    let mag : Rat :=
+      if e = 0 then ((m : Nat) : Rat) / ((2 ^ 1074 : Nat) : Rat)
+      else if e ≥ 1075 then (((2 ^ 52 + m) * 2 ^ (e - 1075) : Nat) : Rat)
+      else (((2 ^ 52 + m : Nat)) : Rat) / ((2 ^ (1075 - e) : Nat) : Rat)
+    some (.fin (if neg then -mag else mag))
+
+def pad12 (n : Nat) : String :=
+  let s := toString n
+  String.ofList (List.replicate (12 - s.length) '0') ++ s
+
+/-- strconv.FormatFloat(x, 'f', 12, 64) for the exact value q: round half to even at 12 decimals -/
+def fmt12 (q : Rat) (negZero : Bool := false) : String :=
+  let neg := q < 0 || negZero
+  let a : Rat := if q < 0 then -q else q
+  let scaled : Rat := a * ((10 ^ 12 : Nat) : Rat)
+  let f : Nat := scaled.floor.toNat
+  let r : Rat := scaled - ((f : Nat) : Rat)
+  let half : Rat := (1 : Rat) / 2
+  let f := if r > half then f + 1 else if r == half then (if f % 2 = 1 then f + 1 else f) else f
+  (if neg then "-" else "") ++ toString (f / 10 ^ 12) ++ "." ++ pad12 (f % 10 ^ 12)
+
+def fmtFV : FV → String
+  | .nan => "NaN"
+  | .inf true => "-Inf"
+  | .inf false => "+Inf"
+  | .fin q => fmt12 q
+
+def ratAbs (q : Rat) : Rat := if q < 0 then -q else q
+
+def tolAbs : Rat := (1 : Rat) / ((10 ^ 12 : Nat) : Rat)
+
+/-- the 12-decimal string both sides print for a p-value whose exact value is `exact` and whose
+    implementation bits are `bits` -/
+def snap (bits : String) (exact : Rat) (tol : Rat := tolAbs) : String :=
+  match bitsToFV bits with
+  | some (.fin g) =>
+      -- Go prints "-0.000…" for a negative zero / tiny negative value
+      if ratAbs (g - exact) ≤ tol then fmt12 g (negZero := g == 0 && bits.startsWith "8") else fmt12 exact
+  | _ => fmt12 exact
+
+/-! ### Φ in fixed point (support level: not part of the proof model) -/
+
+def S : Int := 10 ^ 60
+
+def fmul (a b : Int) : Int := a * b / S
+def fdiv (a b : Int) : Int := a * S / b
+
+/-- e^x for fixed-point x ≥ 0 -/
+def fexp (x : Int) : Int := Id.run do
+  let mut term := S
+  let mut sum := S
+  for k in [1:2000] do
+    term := fmul term x / k
+    if term == 0 then break
+    sum := sum + term
+  return sum
+
+/-- atan(1/n) in fixed point -/
+def fatanInv (n : Int) : Int := Id.run do
+  let mut term := S / n
+  let mut sum := term
+  let n2 := n * n
+  for k in [1:400] do
+    term := term / n2
+    if term == 0 then break
+    let t := term / (2 * k + 1)
+    sum := if k % 2 == 1 then sum - t else sum + t
+  return sum
+
+def fpi : Int := 16 * fatanInv 5 - 4 * fatanInv 239
+
+def fsqrt (x : Int) : Int := ((x * S).toNat.sqrt : Nat)
+
+/-- upper tail Q(z) = 1 − Φ(z) for fixed-point z ≥ 0 -/
+def fQ (z : Int) : Int := Id.run do
+  let z2 := fmul z z
+  let phi := fdiv (fdiv S (fexp (z2 / 2))) (fsqrt (2 * fpi))
+  let mut term := z
+  let mut sum := z
+  for k in [0:5000] do
+    term := fmul term z2 / (2 * k + 3)
+    if term == 0 then break
+    sum := sum + term
+  return S / 2 - fmul phi sum
+
+/-- Φ(z) as a rational, z = zNum/zDen·(1/√s2) given as (twoNumer, s2): z = (twoNumer/2)/√s2 -/
+def zFixed (twoNumer : Int) (s2 : Rat) : Int :=
+  let s2F : Int := (s2 * ((S.toNat : Nat) : Rat)).floor          -- s2·S
+  let sd := fsqrt s2F                                            -- √s2·S
+  twoNumer * S * S / (2 * sd)
+
+def phiFixed (z : Int) : Int := if z ≥ 0 then S - fQ z else fQ (-z)
+
+def toRat (x : Int) : Rat := (x : Rat) / ((S.toNat : Nat) : Rat)
+
+/-- p-value of the normal branch for z (fixed point) and the tolerance to use -/
+def normalP (alt : UStat.Alt) (z : Int) : Rat × Rat :=
+  let lower := toRat (phiFixed z)         -- Φ(z)
+  let upper := toRat (phiFixed (-z))      -- 1 − Φ(z)
+  let rel (p : Rat) : Rat :=
+    let t := p / ((10 ^ 9 : Nat) : Rat)
+    if t < tolAbs then (if t < (1 : Rat) / ((10 ^ 300 : Nat) : Rat) then (1 : Rat) / ((10 ^ 300 : Nat) : Rat) else t) else tolAbs
+  match alt with
+  | .less => (lower, if z < 0 then rel lower else tolAbs)
+  | .greater => (upper, tolAbs)
+  | .differs =>
+      let m := if lower ≤ upper then lower else upper
+      (2 * m, if z < 0 then rel (2 * m) else tolAbs)
+
+/-! ### parsing -/
+
+def parseInt (s : String) : Option Int :=
+  if s.startsWith "-" then (s.drop 1).toString.toNat?.map fun n => -(n : Int)
+  else s.toNat?.map fun n => (n : Int)
+
+def parseInts (s : String) : List Int :=
+  if s == "-" || s == "" || s == "nil" then [] else (s.splitOn ",").filterMap parseInt
+
+def parseAlt (s : String) : UStat.Alt :=
+  if s == "less" then .less else if s == "greater" then .greater else .differs
+
+def insertInt (a : Int) : List Int → List Int
+  | [] => [a]
+  | b :: l => if a ≤ b then a :: b :: l else b :: insertInt a l
+
+/-- spec-level tie vector: multiplicities of the distinct pooled values in increasing order -/
+def specTieVector (pool : List Int) : List Nat :=
+  let d := pool.eraseDups.foldr insertInt []
+  d.map fun a => (pool.filter (· = a)).length
+
+/-! ### Mann–Whitney cases -/
+
+def enumLimit : Nat := 4000
+
+structure SpecDist where
+  total : Nat
+  less : Nat → Rat
+  greater : Nat → Rat
+  two : Nat → Rat
+  pmf : Nat → Rat
+  consistent : Bool
+
+/-- the null distribution by enumeration when small (cross-checked against the per-group count),
+    by per-group counting otherwise -/
+def specDist (pool : List Int) (n1 : Nat) : SpecDist :=
+  let N := pool.length
+  let T := specTieVector pool
+  let g := Spec.UExact.groupDist T n1
+  let gd : SpecDist :=
+    { total := Spec.UExact.gTotal g, less := Spec.UExact.gLess g, greater := Spec.UExact.gGreater g,
+      two := Spec.UExact.gTwoSided g
+      pmf := fun u => ((((g.filter (·.1 = u)).map (·.2)).sum : Nat) : Rat) / ((Spec.UExact.gTotal g : Nat) : Rat)
+      consistent := true }
+  if Spec.UExact.choose N n1 ≤ enumLimit then
+    let d := (Spec.UExact.splits n1 pool).map fun p => Spec.UExact.twoUPairs p.1 p.2
+    { total := d.length, less := Spec.UExact.pLess d, greater := Spec.UExact.pGreater d,
+      two := Spec.UExact.pTwoSided d
+      pmf := fun u => (((d.filter (· = u)).length : Nat) : Rat) / ((d.length : Nat) : Rat)
+      consistent := Spec.UExact.histogram d == g }
+  else gd
+
+def showErr : UStat.Err → String
+  | .sampleSize => "!size"
+  | .samplesEqual => "!equal"
+
+def handleMW (c info : Line) : IO Unit := do
+  let x1 := parseInts (c.getD "x1" "-")
+  let x2 := parseInts (c.getD "x2" "-")
+  let alt := parseAlt (c.getD "alt")
+  let lims := parseInts (c.getD "lim" "50,25")
+  let lim := (lims.getD 0 50).toNat
+  let limT := (lims.getD 1 25).toNat
+  let n1 := x1.length
+  let n2 := x2.length
+  let pbits := info.getD "p" "-"
+  let lbits := info.getD "legacy" "-"
+  -- model
+  let out := UStat.mannWhitney UDist.cdf lim limT x1 x2 alt
+  let (modelLine, modelP) : String × Option Rat := match out with
+    | .error e => (s!"res={showErr e}", none)
+    | .exact tu p => (s!"res=ok n={n1},{n2} twoU={tu} p={snap pbits p}", some p)
+    | .normal tu tn s2 =>
+        let (p, tol) := normalP alt (zFixed tn s2)
+        (s!"res=ok n={n1},{n2} twoU={tu} p={snap pbits p tol}", some p)
+  let legacyOf (p? : Option Rat) (err : String) (tol : Rat) : String :=
+    if alt != .differs then "" else
+    match p? with
+    | some p => s!" legacy={snap lbits p tol}"
+    | none => s!" legacy={err}:-1.000000000000"
+  let modelLegacy := match out with
+    | .error e => legacyOf none (showErr e) tolAbs
+    | .exact _ p => legacyOf (some p) "" tolAbs
+    | .normal _ tn s2 => let (p, tol) := normalP alt (zFixed tn s2); legacyOf (some p) "" tol
+  IO.println s!"obs {c.id} {modelLine}{modelLegacy}"
+  -- specification
+  if n1 = 0 ∨ n2 = 0 then
+    IO.println s!"spec {c.id} res=!size{legacyOf none "!size" tolAbs}"
+  else if Spec.UExact.allEqual x1 x2 then
+    IO.println s!"spec {c.id} res=!equal{legacyOf none "!equal" tolAbs}"
+  else
+    let tu := Spec.UExact.twoUPairs x1 x2
+    let ties := Spec.UExact.hasTies x1 x2
+    let exact := (!ties && n1 ≤ lim && n2 ≤ lim) || (ties && n1 ≤ limT && n2 ≤ limT)
+    if exact then
+      let d := specDist (x1 ++ x2) n1
+      let p := match alt with
+        | .less => d.less tu
+        | .greater => d.greater tu
+        | .differs => d.two tu
+      let kf := if alt == .differs && ties && modelP != some p then " kf=N5" else ""
+      let chk := if d.consistent then "" else " SPEC-INCONSISTENT(enumeration≠group-count)"
+      IO.println s!"spec {c.id} res=ok n={n1},{n2} twoU={tu} p={snap pbits p}{legacyOf (some p) "" tolAbs}{chk}{kf}"
+    else
+      let s2 := Spec.UExact.sigma2 n1 n2 (Spec.UExact.tieTerm x1 x2)
+      let tn := match alt with
+        | .less => Spec.UExact.twoNumerLess tu n1 n2
+        | .greater => Spec.UExact.twoNumerGreater tu n1 n2
+        | .differs => Spec.UExact.twoNumerTwoSided tu n1 n2
+      let (p, tol) := normalP alt (zFixed tn s2)
+      IO.println s!"spec {c.id} res=ok n={n1},{n2} twoU={tu} p={snap pbits p tol}{legacyOf (some p) "" tol}"
+
+/-! ### distribution cases -/
+
+def snapList (bits : List String) (vals : List Rat) : String :=
+  ",".intercalate ((List.zip (bits ++ List.replicate (vals.length - bits.length) "-") vals).map fun bv => snap bv.1 bv.2)
+
+def handleDist (c info : Line) : IO Unit := do
+  let n1 := (c.nat? "n1").getD 0
+  let n2 := (c.nat? "n2").getD 0
+  let T := (parseInts (c.getD "t" "nil")).map Int.toNat
+  let grid := (c.getD "grid" "0:0:1").splitOn ":"
+  let lo := (parseInt (grid.getD 0 "0")).getD 0
+  let hi := (parseInt (grid.getD 1 "0")).getD 0
+  let step := ((parseInt (grid.getD 2 "1")).getD 1).toNat
+  let pts : List Int := (List.range (((hi - lo) / (step : Int)).toNat + 1)).map fun i => lo + (i * step : Nat)
+  let pb := (info.getD "pmf" "").splitOn ","
+  let cb := (info.getD "cdf" "").splitOn ","
+  let sb := info.getD "sum" "-"
+  -- model
+  let mp := pts.map (UDist.pmf n1 n2 T)
+  let mc := pts.map (UDist.cdf n1 n2 T)
+  let msum := mp.foldl (· + ·) 0
+  -- the memo-table form against the pure recurrence, the count table against pRec (small cases)
+  let small := (T.foldl (fun acc t => acc * (t + 1)) 1) ≤ 20000
+  let pureOk := !small || (pts.all fun u => UDist.pmfPure n1 n2 T u == UDist.pmf n1 n2 T u
+                                              && UDist.cdfPure n1 n2 T u == UDist.cdf n1 n2 T u)
+  let recOk := UDist.hasTies T || n1 + n2 > 14 ||
+    ((List.range (n1 * n2 + 1)).all fun u =>
+      UDist.pRec (min n1 n2) (max n1 n2) (u : Nat) == UDist.pUntied n1 n2 u)
+  let chk := (if pureOk then "" else " MODEL-INCONSISTENT(memo≠pure)") ++ (if recOk then "" else " MODEL-INCONSISTENT(counts≠pRec)")
+  IO.println s!"obs {c.id} pmf={snapList pb mp} cdf={snapList cb mc} sum={snap sb msum}{chk}"
+  -- specification: assignments of the pooled sample (value k repeated T[k] times; no T = all distinct)
+  let Tspec := if T.isEmpty then List.replicate (n1 + n2) 1 else T
+  let pool : List Int := ((List.range Tspec.length).map fun k => List.replicate (Tspec.getD k 0) (k : Int)).flatten
+  let d := specDist pool n1
+  let sp := pts.map fun u => if u < 0 then 0 else d.pmf u.toNat
+  let sc := pts.map fun u => if u < 0 then 0 else d.less u.toNat
+  let chk := if d.consistent then "" else " SPEC-INCONSISTENT(enumeration≠group-count)"
+  -- "sums to 1": the grid covers the whole support; "accumulates": cdf = prefix sums by definition of d.less
+  IO.println s!"spec {c.id} pmf={snapList pb sp} cdf={snapList cb sc} sum={snap sb 1}{chk}"
+
+def handle (pending : IO.Ref (Option Line)) (l : Line) : IO Unit := do
+  if l.kind == "case" then
+    pending.set (some l)
+  else if l.kind == "info" then
+    match ← pending.get with
+    | some c =>
+        if c.id == l.id then
+          pending.set none
+          if c.getD "kind" == "dist" then handleDist c l else handleMW c l
+    | none => pure ()
+
+end Driver.C11
+
+def main : IO Unit := do
+  let stdin ← IO.getStdin
+  let pending ← IO.mkRef (none : Option Proto.Line)
+  Proto.forEachLine stdin fun s => Driver.C11.handle pending (Proto.parseLine s)
